@@ -143,6 +143,7 @@ OI_CONTRACTS = {
         'final(self).ris() == (if clear_lowers { seq![ri] } else { seq![ri] + old(self).ris() }) // [C11.add_upper_inode.front] the new real inode becomes the first one; the lower ones are dropped iff asked',
         'final(self).whiteout.v == ri.whiteout // [C11.add_upper_inode.whiteout]',
         'final(self).inode == old(self).inode && final(self).name == old(self).name && final(self).path == old(self).path && final(self).childrens == old(self).childrens && final(self).loaded == old(self).loaded']),
+    'add_upper_inode_lf': 'final(self).lower_exists == old(self).lower_exists // [C11.add_upper_inode.keeps_record] replacing the real inodes does not forget what the lower layers show',
     'stat64': dict(ensures=[
         'self.ris().len() == 0 ==> r is Err && err_is(r->Err_0, 2)',
         'r is Ok ==> exists|i: int| 0 <= i < self.ris().len() && self.ris()[i].inode != 0 && (*self.ris()[i].layer).s_getattr(*ctx, self.ris()[i].inode, None) is Ok && r->Ok_0 == (*#[trigger] self.ris()[i].layer).s_getattr(*ctx, self.ris()[i].inode, None)->Ok_0.0 // [C10.node.stat64] the attributes come from one of the node\'s own layers']),
@@ -238,6 +239,8 @@ SCAN_FINAL = '''proof {
 
 def unit(root='/repo'):
     notes = []
+    from vx import extract as X
+    has_lf = 'pub lower_exists: AtomicBool' in X.Source(root, OVL).src      # the tree has the `lower_exists` record (findings O1-O7 repaired)
     items = C.common_items(root, notes)
     items.append(Raw(C.COLL))
     items.append(Group('pub trait Layer: FileSystem {', [Raw('    fn root_inode(&self) -> u64;')] + C.layer_trait(root, external=True)))
@@ -261,7 +264,7 @@ def unit(root='/repo'):
                        ('new.real_inodes.lock().unwrap().push(ri);', 'after', 'proof { assert(all.take(k0).push(all[k0]) =~= all.take(k0 + 1)); }'),
                        ('new = Self::new_from_real_inode(name, ino, path.clone(), ri);', 'after', 'proof { assert(seq![all[0]] =~= all.take(1)); }'),
                        ('Ok(new)', 'before', 'proof { }')])
-    newn.body_hooks = [R.r28_for_owned(r'\bfor\s+(ri)\s+in\s+(real_inodes)\s*\{', 'vec_into_iter', 'ri_it', header_extra='''
+    NEWN_INV = '''
             invariant_except_break
                 0 <= k <= all.len(), ri_it.rem() == all.skip(k), first <==> k == 0,
                 k > 0 ==> new.ris() == all.take(k) && union_len(all, c0) == k + union_more(all.skip(k), c0), // [union_rule] so far exactly the entries the overlayfs rules merge
@@ -271,16 +274,24 @@ def unit(root='/repo'):
             ensures
                 k > 0 && new.ris() == all.take(union_len(all, c0) as int), // [union_rule]
             decreases ri_it.rem().len(),
-        ''' % CTX0)]
+        ''' % CTX0
+    newn.body_hooks = [R.r28_for_owned(r'\bfor\s+(ri)\s+in\s+(real_inodes)\s*\{', 'vec_into_iter', 'ri_it', header_extra=NEWN_INV)]
     newn.splices.append(('let mut new = Self::new();', 'after', 'let ghost old_path = path@;'))
     if CHECK_LOWER_RECORD:
-        newn.ensures.append('r is Ok && !r->Ok_0.whiteout.v && lower_shows(real_inodes@) ==> exists|i: int| 0 <= i < r->Ok_0.ris().len() && !(#[trigger] r->Ok_0.ris()[i]).in_upper_layer // [C11.union.lower_record] a visible node whose name the lower layers show keeps a lower real inode on record (do_rm needs it to leave a whiteout)')
+        rec = 'r->Ok_0.lower_exists.v' if has_lf else 'exists|i: int| 0 <= i < r->Ok_0.ris().len() && !(#[trigger] r->Ok_0.ris()[i]).in_upper_layer'
+        newn.ensures.append('r is Ok && lower_shows(real_inodes@) ==> %s // [C11.union.lower_record] a node (visible or a whiteout) whose name the lower layers alone show has that on record: do_rm needs it to leave a whiteout, do_mkdir to make the new directory opaque' % rec)
+    if has_lf:
+        newn.splices.append(('let lower_exists = Self::lower_shows(&real_inodes);', 'after', 'let ghost lsh = lower_exists;'))
+        newn.body_hooks[0] = R.r28_for_owned(r'\bfor\s+(ri)\s+in\s+(real_inodes)\s*\{', 'vec_into_iter', 'ri_it', header_extra=NEWN_INV.replace('all.len() > 0,', 'all.len() > 0, lower_exists == lower_shows(all),'))
+        fns.insert(0, Fn(OVL, OI, 'lower_shows', props=['C11'], ensures=['r == lower_shows(real_inodes@) // [C11.lower_shows] the lower layers alone show the name iff the first entry outside the upper layer is not a whiteout'],
+                         splices=[('for ri in real_inodes.iter() {', 'replace', 'for ri in it: real_inodes.iter()\n            invariant forall|j: int| 0 <= j < it.index@ ==> (#[trigger] real_inodes@[j]).in_upper_layer, it.seq().len() == real_inodes@.len(), forall|j: int| 0 <= j < real_inodes@.len() ==> *it.seq()[j] == real_inodes@[j],\n        {')]))
+        fns[2].ensures = fns[2].ensures + ['r.lower_exists.v == (!real_inode.in_upper_layer && !real_inode.whiteout) // [C11.new_from_real_inode.lower_record]']
     fns.append(newn)
     fns.append(Fn(OVL, OI, 'stat64', props=['C10'], body_resub=[LOCK_RO], ensures=OI_CONTRACTS['stat64']['ensures'],
                   splices=[('for l in self.real_inodes.lock_ro().unwrap().iter() {', 'replace', 'for l in it: self.real_inodes.lock_ro().unwrap().iter()\n            invariant it.seq().len() == self.ris().len(), forall|i: int| 0 <= i < self.ris().len() ==> *it.seq()[i] == self.ris()[i],\n        {')]))
     for n in ('in_upper_layer', 'upper_layer_only', 'first_layer_inode'):
         fns.append(Fn(OVL, OI, n, props=['C11'], body_resub=[LOCK_RO], requires=OI_CONTRACTS[n].get('requires', ()), ensures=OI_CONTRACTS[n]['ensures']))
-    fns.append(Fn(OVL, OI, 'add_upper_inode', props=['C11'], canary=True, sig_subst=R25, ensures=OI_CONTRACTS['add_upper_inode']['ensures'],
+    fns.append(Fn(OVL, OI, 'add_upper_inode', props=['C11'], canary=True, sig_subst=R25, ensures=OI_CONTRACTS['add_upper_inode']['ensures'] + ([OI_CONTRACTS['add_upper_inode_lf']] if has_lf else []),
                   body_resub=[(r'inodes\.drain\(\.\.\)\.collect::<Vec<RealInode>>\(\)', 'vec_take_all(inodes)', 'Vec::drain(..).collect(): all elements, in order, leaving the vector empty'),
                               (r'new\.extend\(lowers\)', 'vec_extend(&mut new, lowers)', 'Vec::extend(Vec): appends the elements in order'),
                               (r'inodes\.extend\(new\)', 'vec_extend(inodes, new)', 'Vec::extend(Vec): appends the elements in order')]))
